@@ -15,7 +15,7 @@
   The per-run obligations are the `decide` lines over the regenerated layouts.
 -/
 import SmsVerif.Lemmas.DecodeBound
-import SmsVerif.Gen.Layouts
+import SmsVerif.Props.C11
 
 namespace SmsVerif.C03
 open SmsVerif
@@ -317,6 +317,21 @@ theorem C03_truncated_is_error (p : PduDesc) (hp : p ∈ Gen.allPdus) (data : By
         have := hcons this
         simp at this; omega
 
+/-- **C03_truncated_mandatory_is_error**: at full strength for the decoders that report reader
+    errors (all but the three header-only types covered by `C03_truncated_is_error`, and the two SMGP
+    types of the open finding): if decoding reports success, the input contained every octet of every
+    mandatory field *as the decoded PDU describes it* — each C-string with its terminator, each body
+    as long as its length field says, each list entry its count field announces (`wireSum`), plus the
+    length word.  Cutting a PDU anywhere inside its mandatory part therefore gives an error. -/
+theorem C03_truncated_mandatory_is_error (p : PduDesc) (hp : p ∈ Gen.allPdus)
+    (hx : C11.notCovered.contains p.name = false) (hret : p.ret ≠ .nilAlways)
+    (data : Bytes) (hoct : ∀ x ∈ data, x < 256) (r : Rec) (hdec : p.decode data = .ok r) :
+    ∃ lf its, p.items = some (lf, its) ∧
+      wireSum r its + (if p.fin = .withLength then 4 else 0) ≤ data.length := by
+  have hchk := List.all_eq_true.1 C11.layouts_decoded_fit p (List.mem_filter.2 ⟨hp, by rw [hx]; rfl⟩)
+  obtain ⟨lf, its, hits, _, hc⟩ := decode_fits p hchk data hoct r hdec
+  exact ⟨lf, its, hits, hc hret⟩
+
 /-- the reader itself: whatever is read, the octets requested from the allocator so far plus the
     octets still buffered never exceed what was buffered at the start (`packet/reader.go`). -/
 theorem read_never_requests_unseen (r : Reader) (n : Nat) (he : r.err = none) :
@@ -340,5 +355,6 @@ end SmsVerif.C03
 #print axioms SmsVerif.C03.C03_no_panic
 #print axioms SmsVerif.C03.C03_alloc_proportional
 #print axioms SmsVerif.C03.C03_truncated_is_error
+#print axioms SmsVerif.C03.C03_truncated_mandatory_is_error
 #print axioms SmsVerif.C03.read_never_requests_unseen
 #print axioms SmsVerif.C03.layouts_bounded
